@@ -29,7 +29,7 @@ Normalisation of repository text (mechanical, applied on every run, logged):
   N1  comments and doc comments dropped; all attributes `#[..]` dropped; `#[cfg(..)]` resolved for
       the unit's feature set (attributed item / let statement / block kept or dropped);
   N2  `crate::`  ->  `crate::<crate module>::`  (single-file module tree);
-  N3  `.to_be_bytes()` / `.sort()` / `.dedup()` -> `..._x()` (trusted wrappers carrying the assumed std contract);
+  N3  `.to_be_bytes()` / `.sort()` / `.dedup()` / `.extend(..)` -> `..._x()` (trusted wrappers carrying the assumed std contract);
   N4  rule R1/R2/H rewrites where requested by `rules=` (see rules.py).
 """
 import difflib
@@ -148,7 +148,9 @@ def normalize(toks, lo, hi, features, crate_mod, log):
 
 
 # N3: std methods whose signature assume_specification cannot name -> trusted wrapper of the same contract
-RENAMES = {'to_be_bytes': 'to_be_bytes_x', 'sort': 'sort_x', 'dedup': 'dedup_x'}
+RENAMES = {'to_be_bytes': 'to_be_bytes_x', 'sort': 'sort_x', 'dedup': 'dedup_x', 'extend': 'extend_x',
+           # std: `impl<T: Clone> ToOwned for T { fn to_owned(&self) -> T { self.clone() } }` (all uses are on Clone values)
+           'to_owned': 'clone'}
 
 
 def node_end(toks, j, hi):
